@@ -356,6 +356,10 @@ def check(prog, src, lidx, variant, schedule):
             info["max_trips"] = max_trips
             if sim.mismatch_var:
                 info["facts"] = var_facts(loop, *sim.mismatch_var)
+                if loop2 is not None:
+                    more = var_facts(loop2, *sim.mismatch_var)
+                    for key in ("reads_in_loop", "writes_in_loop"):
+                        info["facts"][key] += more[key]
             return "accepted", f"input {num + 1}: {sim.mismatch}", info
     info["max_trips"] = sim.max_trips
     info["tree"] = tree
@@ -377,20 +381,34 @@ def real_run(prog, tree_text, serial_text):
 
 
 # ---- classifiers --------------------------------------------------------
-def _loop_of(case):
+def _loops_of(case):
+    """(loop, loop2 or None) the case targets (same choice as check())."""
     from psyclone.psyir.nodes import Loop
     tree = psy.read(case["module"])
     loops = psy.routine_of(tree, "s" + case["uid"]).walk(Loop)
-    return loops[case["loop"] % len(loops)]
+    if case.get("variant") == "region2":
+        pairs = [lp for lp in loops
+                 if lp.position + 1 < len(lp.parent.children) and
+                 isinstance(lp.parent.children[lp.position + 1], Loop)]
+        loop = pairs[case["loop"] % len(pairs)]
+        return loop, loop.parent.children[loop.position + 1]
+    return loops[case["loop"] % len(loops)], None
+
+
+def _loop_of(case):
+    return _loops_of(case)[0]
 
 
 def cls_integer_division(case):
     from psyclone.psyir.nodes import ArrayReference, BinaryOperation
-    for ref in _loop_of(case).walk(ArrayReference):
-        for idx in ref.indices:
-            for opn in idx.walk(BinaryOperation):
-                if opn.operator == BinaryOperation.Operator.DIV:
-                    return True
+    for loop in _loops_of(case):
+        if loop is None:
+            continue
+        for ref in loop.walk(ArrayReference):
+            for idx in ref.indices:
+                for opn in idx.walk(BinaryOperation):
+                    if opn.operator == BinaryOperation.Operator.DIV:
+                        return True
     return False
 
 
@@ -403,9 +421,44 @@ def cls_write_only_scalar(case):
         and facts.get("writes_in_loop", 0) >= 1
 
 
+def cls_region_private_carried(case):
+    """Two worksharing loops in ONE parallel region: a scalar the region
+    declares private is assigned in the first loop and its first access in
+    the second loop is a read. A thread that runs an iteration of the second
+    loop without having run one of the first reads an undefined copy."""
+    if case.get("variant") != "region2":
+        return False
+    from psyclone.psyir.nodes import Assignment, Loop, Reference
+    psy.reset_state()
+    loop, loop2 = _loops_of(case)
+    lvars = {lp.variable.name.lower() for lp in loop.walk(Loop)} | \
+        {lp.variable.name.lower() for lp in loop2.walk(Loop)}
+    written1 = {asg.lhs.symbol.name.lower()
+                for asg in loop.walk(Assignment)
+                if type(asg.lhs) is Reference}
+    body2 = loop2.loop_body
+    directive = apply_variant(loop, "region2", case["schedule"])
+    private = set(parse_directive(directive)["private"]) - lvars
+    for name in sorted(private & written1):
+        for ref in body2.walk(Reference):
+            if ref.symbol.name.lower() != name:
+                continue
+            par = ref.parent
+            if isinstance(par, Assignment) and par.lhs is ref:
+                # the right-hand side is evaluated first
+                if any(r.symbol.name.lower() == name
+                       for r in par.rhs.walk(Reference)):
+                    return True
+                break
+            return True
+    return False
+
+
 CLASSIFIERS = {
     "subscript_integer_division": cls_integer_division,
     "write_only_shared_scalar": cls_write_only_scalar,
+    "region_private_scalar_carried_between_loops":
+        cls_region_private_carried,
 }
 
 
